@@ -460,10 +460,12 @@ void getOffsetAndCount(const MultiTag &tag, const DataArray &array, const vector
         } else {
             extent.resize(offset.size(), 0.0);
         }
-        // add pos/extents if missing
+        // add pos/extents if missing: the full axis, [first, last] coordinate
+        const size_t specified = offset.size();
         while (offset.size() < dimensions.size()) {
-            offset.push_back(get<0>(max_extents[offset.size()]));
-            extent.push_back(get<1>(max_extents[extent.size()]));
+            const pair<double, double> &full = max_extents[offset.size()];
+            offset.push_back(get<0>(full));
+            extent.push_back(get<1>(full) - get<0>(full));
         }
         // throw away info, if not needed
         while (offset.size() > dimensions.size()) {
@@ -477,7 +479,8 @@ void getOffsetAndCount(const MultiTag &tag, const DataArray &array, const vector
                 end_positions[dim_index] = vector<double>(indices.size());
             }
             start_positions[dim_index][idx] = offset[dim_index];
-            end_positions[dim_index][idx] = offset[dim_index] + extent[dim_index];
+            end_positions[dim_index][idx] = dim_index < specified ? offset[dim_index] + extent[dim_index]
+                                                                  : get<1>(max_extents[dim_index]);
         }
     }
 
@@ -501,13 +504,14 @@ void getOffsetAndCount(const MultiTag &tag, const DataArray &array, const vector
                 ndsize_t count =  (*opt_range).second - (*opt_range).first;
                 data_count[dim_index] += count;
             } else {
+                optional<ndsize_t> ofst;
                 if (end_positions[dim_index][i] == start_positions[dim_index][i]) {
-                    optional<ndsize_t> ofst = positionToIndex(end_positions[dim_index][i], units[dim_index], PositionMatch::GreaterOrEqual, dimensions[dim_index]);  
-                    if (!ofst) {
-                        throw nix::OutOfBounds("util::offsetAndCount:An invalid range was encountered!");
-                    }
-                    temp_offset[i] = *ofst;
+                    ofst = positionToIndex(end_positions[dim_index][i], units[dim_index], PositionMatch::GreaterOrEqual, dimensions[dim_index]);
                 }
+                if (!ofst) {
+                    throw nix::OutOfBounds("util::offsetAndCount:An invalid range was encountered!");
+                }
+                data_offset[dim_index] = *ofst;
             }   
         }
         offsets.push_back(data_offset);
